@@ -50,6 +50,8 @@ def cases(tier, seed):
         out.append(dict(i=i, seed=seed, type="enum", start=b, count=min(BATCH, len(en) - b), enum_n=ENUM_N[tier])); i += 1
     for b in range(NSAMP[tier] // BATCH):
         out.append(dict(i=i, seed=seed, type="sampled", start=b * BATCH, count=BATCH)); i += 1
+    for b in range(NSAMP[tier] // BATCH // 2):
+        out.append(dict(i=i, seed=seed, type="sampled", start=(1000 + b) * BATCH, count=BATCH, wide=True)); i += 1
     out.append(dict(i=i, seed=seed, type="gen_enum")); i += 1
     for b in range(NGEN[tier] // 500):
         out.append(dict(i=i, seed=seed, type="gen", start=b * 500, count=500)); i += 1
@@ -112,15 +114,30 @@ def check_initial_set(X, x0_arg, lo, hi, rhobeg, npt, tag, viol, st):
             cond=cond)
 
 
-def run_one_init(n, lo, hi, x0, rhobeg, npt, tag, res):
+def random_objective(rng, n, x0, rhobeg):
+    """Residuals whose values along each coordinate rise or fall at random over the scale of the initial set (the order in which
+    the start-up stores its +/- steps, and from it the position of the points beyond 2n+1, depends on the values); never small."""
+    c = np.asarray(x0, dtype=float) + rhobeg * rng.normal(size=n) * 3.0
+    w = rng.normal(size=n) * 10.0 ** rng.uniform(-1, 1, size=n)
+    q = rng.normal(size=n)
+    return lambda x: np.concatenate([w * (x - c) / rhobeg, [3.0 + float(np.sum(q * ((x - c) / rhobeg) ** 2))]])
+
+
+def run_one_init(n, lo, hi, x0, rhobeg, npt, tag, res, objfun=None, extra_params=None, may_reject=False):
     st = res["stats"]
-    f = lambda x: np.concatenate([x - 0.3, [np.sum(x ** 2) + 1.0]])     # never small: no early exit
-    kw = dict(bounds=(lo.copy(), hi.copy()), npt=npt, rhobeg=rhobeg, rhoend=rhobeg * 1e-6, maxfun=npt,
-              user_params={"model.abs_tol": 0.0, "model.rel_tol": 0.0})
+    f = objfun or (lambda x: np.concatenate([x - 0.3, [np.sum(x ** 2) + 1.0]]))     # never small: no early exit
+    up = {"model.abs_tol": 0.0, "model.rel_tol": 0.0}
+    up.update(extra_params or {})
+    kw = dict(bounds=(lo.copy(), hi.copy()), npt=npt, rhobeg=rhobeg, rhoend=rhobeg * 1e-6, maxfun=npt, user_params=up)
     run = engine.run_solve(f, x0.copy(), timeout=30, solve_kwargs=kw)
     st["runs"] = st.get("runs", 0) + 1
     if run.exc is not None:
         res["viol"].append(V("exception", "%s: solve raised %r" % (tag, run.exc), x0=x0, lower=lo, upper=hi, rhobeg=rhobeg, npt=npt))
+        return
+    if may_reject and run.soln.flag == run.soln.EXIT_INPUT_ERROR and len(run.ctx.calls) == 0:
+        # an option the default (coordinate) initialisation does not support may be refused before any evaluation - but if the call
+        # is accepted while random directions were NOT asked for, the set it evaluates is the one the property describes
+        st["refused_before_any_evaluation"] = st.get("refused_before_any_evaluation", 0) + 1
         return
     if run.soln.flag == run.soln.EXIT_INPUT_ERROR:
         res["viol"].append(V("input-error", "%s: valid geometry rejected: %s" % (tag, run.soln.msg), x0=x0, lower=lo, upper=hi, rhobeg=rhobeg))
@@ -178,7 +195,21 @@ def run_sampled(case, res):
             elif u < 0.2:
                 hi_a[j] = 1e20
         npt = int(rng.integers(n + 1, 2 * n + 2))
-        run_one_init(n, lo_a, hi_a, x0, rhobeg, npt, "sampled %d (n=%d, npt=%d)" % (k, n, npt), res)
+        g2 = engine.rng_for(case["seed"], NUM, k, 5)      # own stream: the geometry above stays what it was
+        f = random_objective(g2, n, np.minimum(np.maximum(x0, lo), hi), rhobeg) if g2.random() < 0.5 else None
+        extra, rej, tag2 = None, False, ""
+        if g2.random() < 0.12:
+            # batch evaluation of the initial set requested WITHOUT random directions: refused, or the documented coordinate set
+            extra, rej, tag2 = {"init.run_in_parallel": True}, True, ", init.run_in_parallel"
+        if case.get("wide"):
+            # beyond the stated domain (npt <= 2n+1): up to the limit of the coordinate scheme, where the points past 2n+1 combine two
+            # coordinate steps chosen by the objective values seen so far
+            n_hi = (n + 1) * (n + 2) // 2
+            if n_hi > 2 * n + 1:
+                npt = int(g2.integers(2 * n + 2, n_hi + 1))
+                f = random_objective(g2, n, np.minimum(np.maximum(x0, lo), hi), rhobeg)
+                res["stats"]["initial_sets_npt_above_2n+1"] = res["stats"].get("initial_sets_npt_above_2n+1", 0) + 1
+        run_one_init(n, lo_a, hi_a, x0, rhobeg, npt, "sampled %d (n=%d, npt=%d%s)" % (k, n, npt, tag2), res, objfun=f, extra_params=extra, may_reject=rej)
         if np.any(pat != 0):
             res["nontrivial"].append("s%d" % k)
         if k % 400 == 0:
